@@ -39,6 +39,16 @@ def lattice_units(src, groups=ALL_GROUPS, scalars=SCALARS, builds=('ndebug',), s
 NOT_CLAIMED = {}
 
 
+def sweep_units(prop, with_log):
+    # thorough only: every float32 rotation magnitude in [2^-24, 8) for the float instantiations (226 492 416 values x 9 configurations)
+    us = []
+    for g in ['SO2', 'SE2', 'SO3', 'SE3', 'SE_2_3', 'SGal3']:
+        name = '%s/float/f32_sweep' % g
+        d = ['VF_GROUP_TYPE=' + GROUPS[g].format(S='float'), 'VF_UNIT="%s"' % name, 'VF_PROP="%s"' % prop] + (['VF_SWEEP_LOG=1'] if with_log else [])
+        us.append(Unit(name, 'checks/c02_sweep.cpp', defs=d, flags=['-O2'], shards=16))
+    return us
+
+
 def exact_unit(prop):
     # the library instantiated over exact rationals (GMP): group law, action, adjoint and Lie-algebra identities with zero residual
     return Unit('exact_rational', 'checks/c01_exact.cpp', defs=['VF_UNIT="ExactQ/all_groups"', 'VF_PROP="%s"' % prop], link=[], ldflags=['-lgmpxx', '-lgmp'],
@@ -81,7 +91,10 @@ class C02(Spec):
 
     def units(self, tier):
         sh = (lambda g, s: 4 if g in ('SGal3', 'SE_2_3', 'SE3') else 1) if tier == 'thorough' else None
-        return lattice_units('checks/c02.cpp', shards=sh)
+        us = lattice_units('checks/c02.cpp', shards=sh)
+        if tier == 'thorough':
+            us += sweep_units('C02', False)
+        return us
 
 
 class C01(Spec):
@@ -115,7 +128,10 @@ class C03(Spec):
 
     def units(self, tier):
         sh = (lambda g, s: 8 if 'SGal3' in g else (4 if g in ('SE_2_3', 'SE3') else 1)) if tier == 'thorough' else (lambda g, s: 4 if 'SGal3' in g else (2 if g in ('SE_2_3', 'SE3') else 1))
-        return lattice_units('checks/c03.cpp', shards=sh)
+        us = lattice_units('checks/c03.cpp', shards=sh)
+        if tier == 'thorough':
+            us += sweep_units('C03', True)
+        return us
 
 
 FREE_FN = {1: 'coeffs', 2: 'data', 3: 'identity(X)', 4: 'Identity<G>()', 5: 'zero(t)', 6: 'Zero<T>()', 7: 'random(X)', 8: 'Random<>()', 9: 'random(t)',
